@@ -253,6 +253,9 @@ func (r *runner[C]) safeCheck(c C) (f *Failure) {
 	if !r.p.PanicIsHarnessBug {
 		defer func() {
 			if rec := recover(); rec != nil {
+				if hb, ok := rec.(interface{ IsHarnessBug() bool }); ok && hb.IsHarnessBug() {
+					panic(rec) // an oracle assertion failed: inconclusive, never a violation
+				}
 				st := string(debug.Stack())
 				f = &Failure{Class: "panic/" + panicSite(st), Msg: fmt.Sprintf("panic: %v\n%s", rec, trimStack(st))}
 			}
